@@ -255,6 +255,21 @@ func writeViolation(subName string, c any, err error) {
 	os.WriteFile(filepath.Join(outDir(), "viol."+safe(subName)+".json"), out, 0o644)
 }
 
+// NoShrink marks a violation that must not be re-executed (a hang: every further attempt would
+// leave another stuck goroutine behind). The framework saves the case and ends the process at once.
+type NoShrink struct{ Err error }
+
+func (e NoShrink) Error() string { return e.Err.Error() }
+
+func fatalIfNoShrink(subName string, c any, err error) {
+	if ns, ok := err.(NoShrink); ok {
+		writeViolation(subName, c, ns.Err)
+		fmt.Printf("--- FAIL: %s/%s: %v (process ends here: the failure is a hang)\n", property, subName, capErr(ns.Err))
+		flush()
+		os.Exit(1)
+	}
+}
+
 // guard converts a panic inside the oracle (i.e. inside the code under test) into an error.
 func guard[C any](check func(C) error, c C) (err error) {
 	defer func() {
@@ -285,6 +300,7 @@ func Register[C any](s Sub[C]) {
 		rapid.Check(t, func(rt *rapid.T) {
 			c := s.Gen(rt)
 			if err := guard(s.Check, c); err != nil {
+				fatalIfNoShrink(x.name, c, err)
 				writeViolation(x.name, c, err)
 				rt.Fatalf("%s/%s: %v", property, x.name, capErr(err))
 			}
@@ -315,6 +331,7 @@ func RegisterEnum[C any](e Enum[C]) {
 			}
 			n++
 			if err := guard(e.Check, c); err != nil {
+				fatalIfNoShrink(x.name, c, err)
 				first = err
 				writeViolation(x.name, c, err)
 			}
@@ -540,6 +557,19 @@ func ReplayAll(t *testing.T) {
 		}
 	}
 }
+
+// ReportFuzz is for native fuzz targets: it saves the failing case in the replayable form of
+// sub-check sub (so `vcheck --replay` runs it through the plain oracle) and fails the target.
+func ReportFuzz(t *testing.T, subName string, c any, err error) {
+	if err == nil {
+		return
+	}
+	writeViolation(subName, c, err)
+	t.Fatalf("%s/%s: %v", property, subName, capErr(err))
+}
+
+// Guard runs check and converts a panic into an error (for fuzz targets).
+func Guard[C any](check func(C) error, c C) error { return guard(check, c) }
 
 // Errf is fmt.Errorf.
 func Errf(format string, a ...any) error { return fmt.Errorf(format, a...) }
